@@ -271,6 +271,19 @@ def check_group(out, ops, meta, io, mo):
     spec = spec_merge(tsds)
     out.evaluations += len(outcomes)
     out.count("spec:" + spec[0])
+    # which order-independence theorem speaks about this tuple (hypotheses of merge_perm_one_super / merge_perm_leaf_compete)
+    sups = {}
+    for t in tsds:
+        for n_, s_ in t["types"]:
+            sups.setdefault(n_, set()).add(s_)
+    competing = [n_ for n_, ss in sups.items() if len(ss) > 1]
+    declared_supers = {s_ for ss in sups.values() for s_ in ss}
+    if not competing:
+        out.count("order-theorem:merge_perm_one_super")
+    elif not any(n_ in declared_supers for n_ in competing):
+        out.count("order-theorem:merge_perm_leaf_compete")
+    else:
+        out.count("order-theorem:none (a re-parented type has declared subtypes)")
     # 1. success/failure independent of the order (when the clause applies) and as specified
     if spec[0] != "unspecified":
         want = "ok" if spec[0] == "ok" else "ValueError"
